@@ -11,9 +11,21 @@ TRUSTED = c03.TRUSTED
 ASSUMES = c03.ASSUMES
 
 
+def wide_tree(rng, n, bits=12):
+    """n distinct cells, no sharing, depth about log4 n: crosses the 255/256 boundary of the cell-count width while the
+    strict decoder's tree text stays linear in n"""
+    dag = []
+    for i in range(n):
+        kids = [4 * i + 1 + k for k in range(4) if 4 * i + 1 + k < n]
+        dag.append((kids, cells.rand_bits(rng, bits) + format(i, "016b")))
+    # children-first order: reverse the heap numbering
+    return [(-1, b, [n - 1 - k for k in kids]) for kids, b in reversed(dag)]
+
+
 def run(ctx):
     rng = ctx.rng
     dags = [d for d in c03.gen(ctx) if cells.tree_size(d) <= 3000 and len(d) <= 3000 and cells.dag_depth(d) < 200]
+    dags += [wide_tree(rng, 255), wide_tree(rng, 256), wide_tree(rng, 257), wide_tree(rng, 700, bits=900)]
     cases = []
     for d in dags:
         for o in (c03.OPTS if len(d) <= 60 else rng.sample(c03.OPTS, 2)):
